@@ -348,6 +348,8 @@ package redis
 //@   prop C11 C14 C20
 //@   requires p != nil && req != nil && req.body != nil
 //@   requires @handlers-wellformed forall k string :: has(p.cmdHdlrs, k) ==> p.cmdHdlrs[k] != nil
+//@   callpre field:commandHandler.handle @dispatch-only-registered-commands-on-validated-requests validbody(req.body) && has(p.cmdHdlrs, lower(str(req.body.Array[0].Text)))
+//@   nocall MakeRequest
 
 //@ func (*redisProc).findHandler
 //@   prop C11 C14
@@ -587,3 +589,35 @@ package redis
 //@   loop 0 invariant @unvisited-bytes-intact forall k int :: i <= k && k < len(resp.Array) && len(old(resp.Array[k].Text)) >= 3 ==> old(resp.Array[k].Text)[0] == old(resp.Array[k].Text[0]) && old(resp.Array[k].Text)[1] == old(resp.Array[k].Text[1]) && old(resp.Array[k].Text)[2] == old(resp.Array[k].Text[2])
 //@   loop 0 invariant resp.Array == old(resp.Array)
 //@   loop 0 invariant forall k int :: 0 <= k && k < len(resp.Array) ==> len(resp.Array[k].Text) <= len(old(resp.Array[k].Text)) && base(resp.Array[k].Text) == base(old(resp.Array[k].Text)) && off(resp.Array[k].Text) == off(old(resp.Array[k].Text))
+
+// ---- C14: commands answered by the proxy itself never reach a backend -----------------------------
+
+//@ func handlePing
+//@   prop C14
+//@   nocall MakeRequest
+//@   nocall Send
+
+//@ func handleQuit
+//@   prop C14
+//@   nocall MakeRequest
+//@   nocall Send
+
+//@ func handleSelect
+//@   prop C14
+//@   nocall MakeRequest
+//@   nocall Send
+
+//@ func handleInfo
+//@   prop C14
+//@   nocall MakeRequest
+//@   nocall Send
+
+//@ func handleTime
+//@   prop C14
+//@   nocall MakeRequest
+//@   nocall Send
+
+//@ func handleHotKey
+//@   prop C14 C19
+//@   nocall MakeRequest
+//@   nocall Send
